@@ -106,6 +106,7 @@ type Spec struct {
 	MapInvs  map[string]*Clause // global map variable -> invariant over its values (v), assumed at lookups
 	GlobalGhosts map[string]*GhostField
 	Census   []*CensusSpec
+	GlobalInvs []*Clause // facts about package-level variables that are never written after initialisation
 	Assumes  []string // every assumption-like clause, for the pre-report scan
 	Order    []string
 	nGhost   int
@@ -458,6 +459,14 @@ func (s *Spec) load(path string, prefix string) error {
 				return err
 			}
 			s.ChanInvs[curOwner+"."+strings.TrimSpace(rest[:i])] = c
+			return nil
+		case "globalinv":
+			c, err := s.mkClause(rest, path, ln)
+			if err != nil {
+				return err
+			}
+			s.GlobalInvs = append(s.GlobalInvs, c)
+			s.Assumes = append(s.Assumes, "globalinv "+rest)
 			return nil
 		case "mapinv":
 			i := strings.Index(rest, ":")
